@@ -1,4 +1,4 @@
-import GoitModel.Effects
+import GoitModel.Cmds
 
 /-! Line protocol of the model driver (function-level operations).
     One operation per input line, one canonical answer line per operation. Byte strings are
@@ -166,6 +166,22 @@ def step (s : St) (line : String) : St × String :=
     let ls := Ignore.lines (if f == "none" then none else some (unhex f))
     let t := Ignore.target (unhex p) (kind == "file" || kind == "dir") (kind == "dir") (kind == "tracked")
     (s, if ls.all Ignore.lineOK then toString (Ignore.matchesTarget ls t) else "unsupported")
+  | "cmd.status" :: ix :: fs :: ds :: ig :: sn :: hh :: [] =>
+    let w : Cmds.WS := ⟨entriesIn ix, pairsIn fs, (splitList ds).map unhex, (if ig == "none" then none else some (unhex ig)), entriesIn sn, hh == "1"⟩
+    let sortB (l : List Bytes) := l.mergeSort (fun a b => decide (a ≤ b))
+    (s, match Cmds.status H w with
+        | .ok st => "ok S=" ++ listOut ((st.staged.map diffOut).mergeSort (fun a b => decide (a ≤ b))) ++ " M=" ++ listOut ((sortB st.modified).map hexOut)
+            ++ " D=" ++ listOut ((sortB st.deleted).map hexOut) ++ " U=" ++ listOut ((sortB st.untracked).map hexOut)
+        | .err => "err" | .crash => "crash")
+  | "cmd.add" :: ix :: fs :: ds :: ig :: args :: [] =>
+    let w : Cmds.WS := ⟨entriesIn ix, pairsIn fs, (splitList ds).map unhex, (if ig == "none" then none else some (unhex ig)), [], false⟩
+    (s, resOut entriesOut (Cmds.add H w ((splitList args).map unhex)))
+  | "cmd.rm" :: ix :: fs :: ds :: args :: [] =>
+    let w : Cmds.WS := ⟨entriesIn ix, pairsIn fs, (splitList ds).map unhex, none, [], false⟩
+    (s, resOut (fun r => entriesOut r.1 ++ " " ++ listOut ((r.2.mergeSort (fun a b => decide (a ≤ b))).eraseDups.map hexOut)) (Cmds.rm w ((splitList args).map unhex)))
+  | "cmd.restore" :: ix :: args :: [] =>
+    let w : Cmds.WS := ⟨entriesIn ix, [], [], none, [], false⟩
+    (s, resOut (fun r => entriesOut ((r.mergeSort (fun a b => decide (a.path ≤ b.path))).eraseDups)) (Cmds.restoreWork w ((splitList args).map unhex)))
   | "eff.shape" :: cmd :: rest =>
     let n (i : Nat) : Nat := natOf (rest.getD i "0")
     let objs (k : Nat) : List (Bytes × Bytes) := (List.range k).map fun i => ([UInt8.ofNat i], [])
